@@ -33,7 +33,7 @@ def fmt_nodes(ns):
 
 class Prop(BaseProp):
     id = "C06"
-    groups = ["HashConsts"]
+    groups = ["HashConsts", "XorbLayout"]
     prop_file = "Props/C06.v"
     trusted_base = [
         "blake3 crate == Model/Blake3.v (independent Gallina implementation of the published construction; tied by the correspondence, not proved)",
@@ -141,9 +141,21 @@ class Prop(BaseProp):
                     acc = rng.choice(["e", str(len(buf))])
                 calls.append("%s:%s" % (hexs(buf), acc))
             add("hw %s" % ";".join(calls), "hw-" + ["full", "short", "mixed", "error"][i % 4])
-        return [{"name": "c06", "cases": cases}]
+        # both xorb validators recompute the hash from the chunks: a serialized xorb whose footer attests another hash (and is
+        # validated against that hash), dropped / duplicated chunks, a wrong claimed hash -- all four entry points of stream c08z
+        from .c07 import gen_chunk
+        vcases = []
+        for i in range(3 if not big else 10):
+            chunks = [gen_chunk(rng, rng.choice(["random", "text", "zeros"]), rng.choice([1, 7, 64, 300])) for _ in range(rng.choice([1, 2, 3, 5]))]
+            for sch in ["none", rng.choice(["lz4", "bg4", "auto"])]:
+                for mut, extra in [("id", ""), ("id", "otherhash"), ("sethash", "otherhash"), ("sethash", ""), ("dropchunk", ""), ("dupchunk", "")]:
+                    vcases.append({"id": "xv%d" % len(vcases), "text": "%s %s %s%s" % (sch, ",".join(hexs(c) for c in chunks), mut, (" " + extra) if extra else ""),
+                                   "meta": {"kind": "validators-" + mut}})
+        return [{"name": "c06", "cases": cases}, {"name": "c08z", "cases": vcases, "model": False, "panic_ok": True}]
 
     def nontrivial(self, stream, case, io):
+        if stream == "c08z":
+            return hashlib.sha256(case["text"].encode()).hexdigest()
         t = case["text"]
         if len(t) > 12 and ("," in t or len(t.split(" ", 1)[1]) >= 4):
             return hashlib.sha256(t.encode()).hexdigest()
